@@ -7,6 +7,7 @@ from checks.c09 import corpus_texts
 from checks import c11
 
 import lasio
+import numpy as np
 
 RULE = ("design level: WriteLayout!OrdersAgree (TLC) -- reader and writer pick the same value/description order for every spelling, "
         "version and read case; spec->code: every unordered pair of writer configurations of the table (WriteInstances family C12, "
@@ -24,6 +25,8 @@ CFG = [
     {"version": 1.2, "wrap": False, "mnemonics_header": True, "data_section_header": "~A"},
     {"version": 2.0, "wrap": True, "data_width": 200, "spacer": "\t"},
     {"version": 1.2, "wrap": False, "len_numeric_field": -1, "header_width": 40},
+    # a comma-and-blank spacer (only for inputs that declare a delimiter: the written DLM item must then say COMMA)
+    {"version": 2.0, "wrap": False, "spacer": ", "},
 ]
 EXTRA = [
     "~V\nVERS. 1.2: v\nWRAP. NO:\n~W\nSTRT.M 1.0: first\nSTOP.M 3.0: last\nSTEP.M 1.0: inc\nNull. -999.25: nul\nComp. the company: ACME\nWell. the well: W-1\nELEV.M elevation: 123.5\nLIC. licence number: 12345\n"
@@ -44,7 +47,7 @@ def read_digest(las, kw):
         back = lasio.read(s.getvalue())
     except Exception as e:              # lasio cannot read what it wrote: an observation
         return "EXC", "re-read: %s: %s" % (type(e).__name__, str(e)[:80])
-    d, secs = roundtrip.content_digest(back, drop=("VERS", "WRAP"))
+    d, secs = roundtrip.content_digest(back, drop=("VERS", "WRAP", "DLM"))
     return d, secs
 
 
@@ -77,13 +80,22 @@ def run(ctx):
                 except Exception:
                     ok = False
                     break
+                if "," in CFG[k].get("spacer", "") and ("DLM" not in text[:600].upper()
+                                                         or any(np.asarray(c.data).dtype.kind not in "fiu" for c in las.curves)):
+                    # (text values under a comma delimiter keep padding and quotes: recorded finding D34)
+                    digs[k + 1] = ("NA", "")
+                    continue
                 digs[k + 1] = read_digest(las, CFG[k])
-            if not ok or all(d[0] == "WEXC" for d in digs.values()):
+            if not ok or all(d[0] in ("WEXC", "NA") for d in digs.values()):
                 skipped += 1
                 continue
             use = pairs if thorough else rng.sample(pairs, 10)
+            if not thorough and "DLM" in text[:600].upper():
+                use = use + [pr for pr in pairs if len(CFG) in pr][:3]          # the comma-spacer configuration against three others
             for a, b in use:
                 da, db = digs[a], digs[b]
+                if "NA" in (da[0], db[0]):
+                    continue
                 if da[0] == "WEXC" and db[0] == "WEXC":
                     unwritable += 1         # this input cannot be written with either of the two configurations
                     continue
@@ -110,6 +122,7 @@ def run(ctx):
         ctx.report(clause, "input=%s case=%s cfg1=%s cfg2=%s difference=%s" % (m["input"], m["case"], m["cfg1"], m["cfg2"], m["difference"]),
                    {"meta": m, "event": events[tid]})
     ctx.sample({"pair": meta[0]})
-    ctx.assumptions += ["both configurations print numbers with the same (default) format; VERS and WRAP items are not compared",
+    ctx.assumptions += ["both configurations print numbers with the same (default) format; VERS and WRAP items are not compared, nor is "
+                        "DLM, which records the spacer option the way WRAP records wrap= (since repair D25)",
                         "inputs lasio cannot read or write with any configuration are skipped (counted in the evidence)"]
     return ctx.finish(RULE)
